@@ -453,6 +453,9 @@ func genSent(t *rapid.T, d Decl, full bool) Sent {
 	if (d.In == "query" || d.In == "formData") && rapid.IntRange(0, 5).Draw(t, "decoy") == 0 {
 		s.Decoy = []kit.BStr{kit.BStr(forLocation(d.In, genOccurrence(t, d)))}
 	}
+	if (d.In == "query" || d.In == "formData") && d.Type != "file" && rapid.IntRange(0, 3).Draw(t, "cross") == 0 {
+		s.Cross = []kit.BStr{kit.BStr(forLocation(d.In, genOccurrence(t, d)))}
+	}
 	return s
 }
 
